@@ -5,7 +5,7 @@
 From Coq Require Import Arith NArith List Bool.
 From Verif Require Import Base.Bytes Base.Hash Model.Merkle Model.MerkleSpec Model.Contracts Model.TreeStore Model.BridgeStore
   Proofs.Frontier Proofs.Rht Proofs.InitCache Proofs.ContractProofs Proofs.BitFacts Proofs.C01Proofs
-  Proofs.TreeStoreProofs Proofs.TreeStoreCorollaries Gen.SourceFacts.
+  Proofs.TreeStoreProofs Proofs.TreeStoreCorollaries Proofs.BridgeReach Gen.SourceFacts.
 Import ListNotations.
 Local Close Scope N_scope.
 
@@ -118,7 +118,31 @@ Example C01_nonvacuous :
   Some (dc_get_root (fold_left dc_deposit leaves dc_init)).
 Proof. vm_compute. reflexivity. Qed.
 
+
+(* ================= processor level: the bridge processor model that is compared with the Go code on every run =================
+   `BReach HT node zhf leafh st`: st is reachable from the empty processor by ProcessBlock of well-formed blocks (block number
+   above every recorded one, bridge positions increasing, deposit count < 2^HT) under ANY storage fault, by Reorg and by restart.
+   The executable instance is HT := 32, node := Keccak, zhf := zero table, leafh := bridge_leaf. *)
+Section Processor.
+Variable HT : nat.
+Variable node : N -> N -> N.
+Hypothesis node_inj : forall a b c d, node a b = node c d -> a = c /\ b = d.
+Variable zhf : nat -> N.
+Hypothesis Hzh : forall h, (h <= HT)%nat -> zhf h = zero node 0%N h.
+Variable leafh : bridge_ev -> N.
+Hypothesis Hleaf : forall b, leafh b <> 0%N.
+(* the processor only ever drives its exit tree through the operations of `Reach`: the store invariant holds in every
+   reachable processor state, for the history read off the bridge table; deposit counts in the table are 0,1,2,... *)
+Theorem C01_processor_invariant : forall st, BReach HT node zhf leafh st -> BInv HT node zhf leafh st.
+Proof. exact (BReach_inv HT node node_inj zhf Hzh leafh Hleaf). Qed.
+Theorem C01_processor_exit_roots : forall st i, BReach HT node zhf leafh st -> (i < length (d_bridges (st_db st)))%nat ->
+  exit_root_by_index (st_db st) (N.of_nat i) = Some (mroot node 0%N (lf (hist_of leafh (st_db st))) HT (S i)).
+Proof. exact (processor_exit_roots HT node node_inj zhf Hzh leafh Hleaf). Qed.
+End Processor.
+
 Print Assumptions C01_bit_function.
+Print Assumptions C01_processor_invariant.
+Print Assumptions C01_processor_exit_roots.
 Print Assumptions C01_frontier_invariant_initial.
 Print Assumptions C01_frontier_invariant_preserved.
 Print Assumptions C01_frontier_invariant_after_restart.
